@@ -174,4 +174,8 @@ def exEvent : Event :=
 example : exFilter.WF ∧ TagsNonEmpty exEvent ∧ matchOne exFilter exEvent = .ok true := by
   refine ⟨by decide, by unfold TagsNonEmpty; decide, by decide⟩
 
+/-- the multi-filter folds and the counting step of the source are the ones the model follows (evaluation order
+    included: no short-circuit skips a matcher's `LimitMatch`) -/
+theorem matchers_source_pinned : matchersActualSource = matchersExpectedSource := by rfl
+
 end Moc.C02
